@@ -43,3 +43,21 @@ package resource
 //@   ensures [lastseed] send ==> c.LastSeedValue == (a.LastSeedValue || b.LastSeedValue)
 //@   modifies nothing
 //@   replay MergeChanges(a.ChangeType, b.ChangeType, a.LastSeedValue, b.LastSeedValue)
+//@
+//@ property C11 C02 C03
+//@ // "mu protects byId and rng" (struct comment); the write option/interceptor callbacks run without the lock
+//@ type Value
+//@   guarded_by mu: value, changeTime
+//@ type Collection
+//@   guarded_by mu: byId, config.rng
+//@
+//@ // helpers that are only ever called with the collection's lock held (every call site is checked against this)
+//@ func (*Collection).itemSlice(readConfig) (res)
+//@   option locks caller
+//@   option only guard lock call
+//@   requires recv != nil && held(recv.mu)
+//@ func (*Collection).genID() (id, err)
+//@   option locks caller
+//@   option only guard lock call
+//@   replay CollectionGenIDRace()
+//@   requires recv != nil && held(recv.mu)
